@@ -195,6 +195,14 @@ impl FunctionExpression for MapKeysFn {
     }
 
     fn type_def(&self, ctx: &state::TypeState) -> TypeDef {
-        self.value.type_def(ctx)
+        let mut type_def = self.value.type_def(ctx);
+
+        // The closure renames the keys, so the known fields of the input no longer
+        // describe the result.
+        if type_def.contains_object() {
+            type_def.kind_mut().add_object(Collection::any());
+        }
+
+        type_def
     }
 }
